@@ -41,15 +41,46 @@ def cli_run(k, spec):
     d = os.path.join(root, "cli_%d" % k)
     shutil.rmtree(d, ignore_errors=True)
     os.makedirs(os.path.join(d, "in"))
-    L.write_file(spec["case"], os.path.join(d, "in", "data.csv"))
     c = spec["case"]
+    source = "csv-raw"
+    extra = []
+    if c.get("ob_csv"):
+        # an ob-csv folder: data.csv (with header) + dataset_desc.json; Float features take numeric values
+        import random as _random
+        source = "ob-csv"
+        feats = c["ob_csv"]["features"]                     # [[name, type], ...]; the label comes last (c["cols"][-1])
+        rng = _random.Random(c["seed"])
+        with open(os.path.join(d, "in", "dataset_desc.json"), "w") as f:
+            json.dump({"data_features": [{"name": n, "type": ty} for n, ty in feats]}, f)
+        with open(os.path.join(d, "in", "data.csv"), "w", encoding="latin1") as f:
+            f.write(",".join(n for n, _ in feats) + "\n")
+            for _ in range(c["ob_csv"]["rows"]):
+                lab = rng.randint(0, 1)
+                cells = []
+                for j, (n, ty) in enumerate(feats):
+                    if n == c["cols"][-1]:
+                        cells.append(str(lab))
+                    elif "loat" in ty:
+                        base = [rng.randint(0, 9) + lab, round(rng.random() * 4, 1), rng.choice([0.5, 1.5, 2.5, 8.0]) * (1 + lab)][j % 3]
+                        cells.append(repr(float(base)))
+                    else:
+                        cells.append("c%d" % rng.randint(0, 3))
+                f.write(",".join(cells) + "\n")
+    else:
+        L.write_file(c, os.path.join(d, "in", "data.csv"))
+    if c.get("reference_features"):
+        # a reference model description: {"desc": {"features": [...], "fields": [...]}}
+        rp = os.path.join(d, "in", "reference_model.json")
+        with open(rp, "w") as f:
+            json.dump({"desc": {"features": list(c["reference_features"]), "fields": []}}, f)
+        extra += ["--reference_model_JSON", rp]
     argv = [sys.executable, "-m", "outrank", "--task", "ranking", "--data_path", os.path.join(d, "in"),
-            "--data_source", "csv-raw", "--output_folder", os.path.join(d, "out"), "--minibatch_size", str(c["B"]),
+            "--data_source", source, "--output_folder", os.path.join(d, "out"), "--minibatch_size", str(c["B"]),
             "--subsampling", str(c["s"]), "--heuristic", c["heuristic"], "--target_ranking_only", c["target_only"],
             "--label_column", c["cols"][-1], "--include_cardinality_in_feature_names", "False", "--disable_tqdm", c.get("disable_tqdm", "True"),
             "--num_threads", str(spec["threads"]), "--interaction_order", str(c.get("interaction_order", 1)),
             "--combination_number_upper_bound", str(c.get("cap", 2 ** 15)),
-            "--include_noise_baseline_features", c.get("noise", "False")] + list(c.get("extra_args", []))
+            "--include_noise_baseline_features", c.get("noise", "False")] + list(c.get("extra_args", [])) + extra
     env = dict(os.environ)
     env["PYTHONHASHSEED"] = str(spec["hashseed"])
     for k in ("OMP_NUM_THREADS", "OPENBLAS_NUM_THREADS", "MKL_NUM_THREADS"):   # many processes side by side
